@@ -11,7 +11,7 @@
 (* the call line, so only the POSITION is guessed).  Notifications are     *)
 (* manager-initiated: LinNotify(r) may happen any time before the          *)
 (* "Notified" line that the receiving goroutine logs; a cancelled waiter   *)
-(* may be dropped (Drop) any time after its "Cancel" line (logged before   *)
+(* may have been dropped any time after its "Cancel" line (logged before   *)
 (* the channel is closed).  Acceptance: see LimitsTrace.tla.               *)
 (***************************************************************************)
 EXTENDS LimitsRM, LimitsTrace
@@ -45,6 +45,13 @@ TrCall ==
 \* postponing an internal step over call/Cancel lines never loses an explanation (partial-order reduction).
 Observing == Ev.op \in {"ret", "Notified"}
 
+\* A cancelled waiter that is not going to be notified may have been dropped by the manager (run(): case <-req.cancelC)
+\* at any time after its Cancel line.  Only Stats can see the difference (PendingKeys), so the drop is decided lazily at
+\* the linearization point of a Stats call: a set of keys ALL of whose waiters are droppable disappears so that the
+\* reported number of pending keys is met (dropping later is always still possible, un-dropping is not).
+DroppableKeys == {k \in Keys(waiters) : \A r \in waiters : r.key = k => (r.id \in canc /\ r.id \notin nt)}
+StatsPending == \E g \in DOMAIN pend : pend[g].f = "Stats" /\ ~pend[g].lin
+
 \* the linearization point of the call pending in goroutine g
 Lin(g) ==
     /\ Observing
@@ -60,9 +67,13 @@ Lin(g) ==
              /\ ARefuse /\ KeepViol
           \/ /\ e.f = "Release"
              /\ ARelease(r) /\ KeepViol
-          \/ /\ e.f = "Stats"
-             /\ UNCHANGED avars
-             /\ SetViol(StatsViol(e.size, e.objects, e.pending))          \* @obligation C17.rm.balance
+          \/ /\ e.f = "Stats"                                             \* @obligation C17.rm.balance
+             /\ LET v0 == StatsViol(e.size, e.objects, Cardinality(Keys(waiters)))     \* size / objects only
+                    Ks == {K \in SUBSET DroppableKeys : Cardinality(Keys(waiters)) - Cardinality(K) = e.pending}
+                IN IF v0 # "" THEN UNCHANGED avars /\ SetViol(v0)
+                   ELSE IF Ks = {} THEN UNCHANGED avars /\ SetViol("C17.rm.pending")
+                   ELSE /\ \E K \in Ks : waiters' = {w \in waiters : w.key \notin K}
+                        /\ UNCHANGED <<rcfg, avail, holders, canc>> /\ KeepViol
           \/ /\ e.f = "Close"
              /\ UNCHANGED avars /\ KeepViol
     /\ pend' = [pend EXCEPT ![g].lin = TRUE]
@@ -74,8 +85,12 @@ TrRet ==
     /\ Advance /\ KeepViol
     /\ UNCHANGED <<avars, notif, nt>>
 
+\* Postponing a notification never invalidates a grant (it only leaves more available to the others, and at its own
+\* late position avail is n above the real value), so it is placed right before its own Notified line - unless a Stats
+\* call is waiting for its linearization point and may have seen it.
 LinNotify(r) ==
     /\ Observing
+    /\ (Ev.op = "Notified" /\ Ev.id = r.id) \/ StatsPending
     /\ r \in waiters /\ r.id \in nt /\ r.id \notin notif
     /\ ANotify(r)
     /\ SetViol(IF GrantOK(r) THEN "" ELSE "C17.rm.limit")                   \* @obligation C17.rm.limit
@@ -92,15 +107,6 @@ TrNotified ==
           /\ UNCHANGED <<notif, nt>>
     /\ Advance
     /\ UNCHANGED <<avars, pend>>
-
-\* Only Stats can see whether a cancelled waiter is still queued, so a Drop is needed only while some Stats call
-\* is waiting for its linearization point (it can always be postponed until then).
-Drop(r) ==
-    /\ Observing
-    /\ \E g \in DOMAIN pend : pend[g].f = "Stats" /\ ~pend[g].lin
-    /\ r \in waiters /\ r.id \in canc /\ r.id \notin nt
-    /\ ADrop(r)
-    /\ UNCHANGED <<pend, notif, nt, l, viol, vl>>
 
 TrCancel ==
     /\ Ev.op = "Cancel"
@@ -128,7 +134,7 @@ TraceNext ==
     /\ l <= Len(Trace)
     /\ \/ TrReset \/ TrEnd \/ TrCall \/ TrRet \/ TrNotified \/ TrCancel \/ TrHang \/ TrCrash
        \/ \E g \in DOMAIN pend : Lin(g)
-       \/ \E r \in waiters : LinNotify(r) \/ Drop(r)
+       \/ \E r \in waiters : LinNotify(r)
 
 TraceSpec == TraceInit /\ [][TraceNext]_tvars
 =============================================================================
